@@ -205,6 +205,7 @@ type c05Write struct {
 	Acked  bool
 	Err    string
 	Leader int
+	Ev     int // number of the event that issued the write (the batches of one Wj share it)
 }
 
 type c05Group struct {
@@ -519,7 +520,7 @@ func (g *c05Group) write(via string) *c05Fail {
 		// changes for a REAL entry of a later leader to overwrite a discarded one.
 		for k := 1; k < c05StaleEntries; k++ {
 			id0 := len(g.writes) + 1
-			w0 := &c05Write{ID: id0, Via: via, Pts: vWriteMenu[vWriteIndex(c05Menu[(id0-1)%len(c05Menu)])].Gen(id0), Leader: l.id}
+			w0 := &c05Write{ID: id0, Via: via, Pts: vWriteMenu[vWriteIndex(c05Menu[(id0-1)%len(c05Menu)])].Gen(id0), Leader: l.id, Ev: g.evNo}
 			g.writes = append(g.writes, w0)
 			tail0, err := c05Tail(target, w0.Pts)
 			if err != nil {
@@ -534,7 +535,7 @@ func (g *c05Group) write(via string) *c05Fail {
 		}
 	}
 	id := len(g.writes) + 1
-	w := &c05Write{ID: id, Via: via, Pts: vWriteMenu[vWriteIndex(c05Menu[(id-1)%len(c05Menu)])].Gen(id), Leader: l.id}
+	w := &c05Write{ID: id, Via: via, Pts: vWriteMenu[vWriteIndex(c05Menu[(id-1)%len(c05Menu)])].Gen(id), Leader: l.id, Ev: g.evNo}
 	g.writes = append(g.writes, w)
 	tail, err := c05Tail(target, w.Pts)
 	if err != nil {
@@ -701,18 +702,32 @@ func (r *c05Replica) dump() (c05State, error) {
 // sequence of writes in proposal order, where an unacknowledged write may be present or absent. Returns the largest
 // number of acknowledged writes covered by a matching prefix, or -1.
 func (g *c05Group) match(state string) int {
-	var unacked []int
+	// Unacknowledged writes are grouped: the batches one Wj event sent to the cut-off leader were appended to that leader's
+	// log one after the other, so whatever part of them a replicated log holds is a PREFIX of the group (log matching);
+	// every other unacknowledged write is a group of one (present or absent). Enumerating prefixes per group instead of
+	// subsets keeps the number of candidate logs small (6 per Wj instead of 32).
+	var groups [][]int
 	for i, w := range g.writes {
-		if !w.Acked {
-			unacked = append(unacked, i)
+		if w.Acked {
+			continue
 		}
+		if n := len(groups); n > 0 && w.Via == "Wj" {
+			last := groups[n-1]
+			lw := g.writes[last[len(last)-1]]
+			if lw.Via == "Wj" && lw.Ev == w.Ev && last[len(last)-1] == i-1 {
+				groups[n-1] = append(last, i)
+				continue
+			}
+		}
+		groups = append(groups, []int{i})
 	}
 	best := -1
-	for mask := 0; mask < 1<<len(unacked); mask++ {
+	choice := make([]int, len(groups)) // choice[k] = number of leading writes of group k that are in the log
+	for {
 		in := map[int]bool{}
-		for b, i := range unacked {
-			if mask&(1<<b) != 0 {
-				in[i] = true
+		for k, grp := range groups {
+			for j := 0; j < choice[k]; j++ {
+				in[grp[j]] = true
 			}
 		}
 		s := c05State{}
@@ -731,6 +746,18 @@ func (g *c05Group) match(state string) int {
 			if s.String() == state && acked > best {
 				best = acked
 			}
+		}
+		// next choice vector (odometer)
+		k := 0
+		for ; k < len(groups); k++ {
+			choice[k]++
+			if choice[k] <= len(groups[k]) {
+				break
+			}
+			choice[k] = 0
+		}
+		if k == len(groups) {
+			break
 		}
 	}
 	return best
